@@ -46,7 +46,7 @@ let pool_case toks impl_line =
 (* ---- accept loop / server scenarios ---- *)
 type ctok = Cmd of cmd | ErrThenConnect of int | Burst of int * int
 let parse_cmd (t : string) : ctok =
-  if t = "c" then Cmd KConnect
+  if t = "c" || t = "C" then Cmd KConnect      (* C: the first request is an upload head without body; same transitions *)
   else if t = "r" then Cmd KRevoke
   else match strip_prefix "e" t with Some k -> Cmd (KEnd (nat (num_of k))) | None ->
   match strip_prefix "b" t with
@@ -56,6 +56,7 @@ let parse_cmd (t : string) : ctok =
       | _ -> failwith ("bad burst " ^ t))
   | None ->
   match strip_prefix "q" t with Some k -> Cmd (KRequest (nat (num_of k))) | None ->
+  match strip_prefix "Q" t with Some k -> Cmd (KRequest (nat (num_of k))) | None ->
   match strip_prefix "l" t with Some k -> Cmd (KRelease (nat (num_of k))) | None ->
   match strip_prefix "p" t with Some _ -> Cmd (KErrors O) | None ->       (* half a head: no transition *)
   match strip_prefix "u" t with Some _ -> Cmd (KErrors O) | None ->       (* head + part of the body: none *)
